@@ -96,15 +96,22 @@ def work():
         _WORK = os.environ.get("C19_WORKDIR") or scratch_dir("c19")
         os.environ["C19_WORKDIR"] = _WORK
     os.makedirs(_WORK, exist_ok=True)
+    # hermetic: the CLI reads its defaults from $XDG_CONFIG_HOME/pyimpspec/config.json, which other programs
+    # (e.g. the repository's own CLI tests) rewrite; an empty directory means "built-in defaults"
+    os.environ["XDG_CONFIG_HOME"] = os.path.join(_WORK, "xdg")
+    os.makedirs(os.environ["XDG_CONFIG_HOME"], exist_ok=True)
     return _WORK
 
 
 def judge_chunk(chunk):
     ensure_repo_on_path()
-    import numpy as np
+    work()
     out = []
     for cfg in chunk:
-        out.append(judge_one(cfg))
+        r = judge_one(cfg)
+        if r[0] and cfg[0]["cmd"] in ("fit", "drt"):
+            r = judge_one(cfg)          # numbers of an optimiser: only a difference that shows twice is reported
+        out.append(r)
     return out
 
 
